@@ -91,6 +91,28 @@ def run(prog, rep, tier='quick', config='default'):
                     if any(c.callee.endswith('Decimal::is_zero') for c in d.calls) and any(f == 'foreign_to_local_rate' for of, f in d.fields) \
                             and set(gets) & set(d.calls) and not truth_of(vals, neg):
                         guarded = True
+                if not guarded:
+                    # `Some(rate).filter(|r| !r.foreign_to_local_rate.is_zero())`: the wrapped rate goes nowhere but into a filter whose
+                    # predicate keeps it only when is_zero() is false
+                    some_l = s['dst']['l']
+                    users = [x for x in fn.calls if some_l in x.arg_locals() or
+                             any(some_l in mir.provenance(fn, a).locals for a in x.args if is_place(a))]
+                    flt = [x for x in users if re.search(r'^std::option::Option::<.*>::filter$', x.decl) and len(x.args) > 1]
+                    if flt and len(users) == len(flt) and not s['dst']['p'] and some_l != 0:
+                        ok_all = True
+                        for x in flt:
+                            g2 = mir._closure_fn_of(prog, fn, x.args[1])
+
+                            def atom(gf, call):
+                                if call.callee.endswith('Decimal::is_zero') and call.args and \
+                                        any(f == 'foreign_to_local_rate' for of, f in mir.provenance(gf, call.args[0]).fields):
+                                    return ('z', 'bool')
+                                return None
+                            cases = mir.bool_cases(prog, g2, atom) if g2 is not None else None
+                            keep = [cs_ for cs_, v in (cases or []) if v is True]
+                            if not keep or not all(cs_.get('z') is False for cs_ in keep):
+                                ok_all = False
+                        guarded = ok_all
                 if guarded:
                     rep.ok('R12b', k, where=fn.where(s), fn=fn.name, detail='a rate from the per-year map is wrapped only on the non-zero edge of is_zero(rate)')
                 else:
@@ -159,6 +181,21 @@ def run(prog, rep, tier='quick', config='default'):
             src = mir.provenance(fn, c.args[0], follow_all_call_args=True)
             from_vec = any(re.search(r'Vec<fx::model::DailyRate>|\[fx::model::DailyRate\]', fn.ty.get(p_, '')) for p_ in src.params)
             fresh = [x for x in src.calls if x.short in ('chain', 'once', 'repeat', 'zip', 'flat_map', 'successors', 'from_fn')]
+            if not from_vec and src.params and fn.kind in ('Fn', 'AssocFn'):
+                # a generic `impl IntoIterator<Item = &DailyRate>` parameter: what the product callers hand over
+                RATES = r'Vec<fx::model::DailyRate>|\[fx::model::DailyRate\]|slice::Iter<.*fx::model::DailyRate>'
+                sites = [x for x in prog.callers.get(fn.name, []) if not mir.is_testsupport(x.fn.name) and not x.inlined]
+
+                def site_ok(x):
+                    for p_ in src.params:
+                        if p_ - 1 >= len(x.args) or not is_place(x.args[p_ - 1]):
+                            return False
+                        so = mir.provenance(x.fn, x.args[p_ - 1], follow_all_call_args=True)
+                        tys = [x.fn.ty.get(l_, '') or '' for l_ in so.locals] + [prog.field_type(of, f) or '' for (of, f) in so.fields]
+                        if not any(re.search(RATES, t) for t in tys) or [y for y in so.calls if y.short in ('chain', 'once', 'repeat', 'zip', 'flat_map', 'successors', 'from_fn')]:
+                            return False
+                    return True
+                from_vec = bool(sites) and all(site_ok(x) for x in sites)
             if from_vec and not fresh:
                 rep.ok('R12e', k, where=c.where(), fn=fn.name, detail='per-day map collected from a loaded year of rates')
             else:
